@@ -93,7 +93,9 @@ func CallGuarded(conn *fakemc.Conn, h handlers.Handler, op wire.Op) (res HRes, o
 // CallHandlerDeferred is CallHandler without looking at the returned value bytes yet.
 func CallHandlerDeferred(h handlers.Handler, op wire.Op) (res HRes) {
 	key := op.KeyBytes()
-	sr := common.SetRequest{Key: key, Data: op.Value(), Flags: op.Flags, Exptime: op.TTL}
+	// QuietW: what the orchestrators hand down for SETQ, DELETEQ, ...: the same call with the quiet
+	// flag set (the reply is still the handler's return value)
+	sr := common.SetRequest{Key: key, Data: op.Value(), Flags: op.Flags, Exptime: op.TTL, Quiet: op.QuietW}
 	switch op.Kind {
 	case "set":
 		res.Class, res.Detail = classOf(h.Set(sr))
@@ -106,7 +108,7 @@ func CallHandlerDeferred(h handlers.Handler, op wire.Op) (res HRes) {
 	case "prepend":
 		res.Class, res.Detail = classOf(h.Prepend(sr))
 	case "delete":
-		res.Class, res.Detail = classOf(h.Delete(common.DeleteRequest{Key: key}))
+		res.Class, res.Detail = classOf(h.Delete(common.DeleteRequest{Key: key, Quiet: op.QuietW}))
 	case "touch":
 		res.Class, res.Detail = classOf(h.Touch(common.TouchRequest{Key: key, Exptime: op.TTL}))
 	case "gat":
